@@ -2,9 +2,14 @@
     Sequential clause (both caches): an iteration at clock reading [now] is a duplicate-free
     listing of exactly the physically held entries that are not expired at [now], each with
     its current value; and (C01) every listed entry is justified by the history.
-    The clause about concurrent writers is Conc/ShardIter.v (added when that model lands). *)
+    Concurrent clause (Conc/ShardIter.v): the map is sharded, every key belongs statically to
+    one shard ([sh], an arbitrary function), the iterator lists one shard at a time (atomically
+    w.r.t. writers of that shard: it holds the shard lock) in shard order, and writer threads
+    update existing keys at any time in between — for EVERY interleaving [tr] of updates and
+    listing steps.  PARTIAL: that DashMap's iterator behaves like this model is assumed
+    (trusted base); the tie is a real-thread stress run checked by the same statement. *)
 From MM Require Import Contract.Trace Contract.UnsyncTrace Contract.SyncTrace Contract.Glue
-  Unsync.UInvDefs Unsync.UInv.
+  Unsync.UInvDefs Unsync.UInv Conc.ShardIter.
 
 Theorem C16_unsync_iter_exact : forall c s now l, cfg_ok c -> WF' c s -> u_iter c s now = Ok l ->
   NoDup l.*1 /\
@@ -31,6 +36,25 @@ Proof. exact u_iter_pure. Qed.
 Theorem C16_sync_iter_pure : forall c r, exists l, sstep c r SIter = Ok (r, SOList l).
 Proof. exact s_iter_pure. Qed.
 
+(** beside concurrent updaters: no key twice, every resident key exactly once, values current
+    at some moment of the iteration *)
+Theorem C16_conc_no_duplicates : forall sh m0 tr, NoDup (is_out (s_run sh (s_init m0) tr)).*1.
+Proof. exact iter_no_duplicates. Qed.
+Theorem C16_conc_complete : forall sh n m0 tr, (forall k, (sh k < n)%nat) -> count_lists tr = n ->
+  forall k, is_Some (m0 !! k) -> k ∈ (is_out (s_run sh (s_init m0) tr)).*1.
+Proof. exact iter_complete. Qed.
+Theorem C16_conc_only_residents : forall sh m0 tr k,
+  k ∈ (is_out (s_run sh (s_init m0) tr)).*1 -> is_Some (m0 !! k).
+Proof. exact iter_only_residents. Qed.
+Theorem C16_conc_value_was_current : forall sh m0 tr k v,
+  (k, v) ∈ is_out (s_run sh (s_init m0) tr) ->
+  exists tr1 tr2, tr = tr1 ++ tr2 /\ is_map (s_run sh (s_init m0) tr1) !! k = Some v.
+Proof. exact iter_value_was_current. Qed.
+
+Print Assumptions C16_conc_no_duplicates.
+Print Assumptions C16_conc_complete.
+Print Assumptions C16_conc_only_residents.
+Print Assumptions C16_conc_value_was_current.
 Print Assumptions C16_unsync_iter_exact.
 Print Assumptions C16_sync_iter_exact.
 Print Assumptions C16_unsync_iter_justified.
